@@ -100,6 +100,26 @@ TRIGGERS = {
  "W-C17": ("C17", "execute_submsg hands a FAILED sub-message to reply for every mode but Never: under reply_on Success a failing module no longer aborts the transaction"),
  "W-C18": ("C18", "addr_canonicalize builds its error text with a byte-offset slice of the input: a multi-byte character straddling byte offset prefix.len() makes the helper panic instead of returning Err"),
  "W-C19": ("C19", "Reply.gas_used carries the wall-clock nanoseconds the sub-message took"),
+ "X-C01": ("C01", "RepLog::append compacts repeated Sets of one key in place but lets a Delete keep its later position: set, remove, set again of one key inside one cache layer commits the removal last"),
+ "X-C02": ("C02", "execute_submsg treats a sub-message with id 0 as reply_on Never: a failing sub-message with id 0 sent with Error/Always is not absorbed"),
+ "X-C03": ("C03", "execute_submsg's failure branch became a match with Never => Err, _ => reply: a FAILED sub-message sent with reply_on Success is replied to (with Err) instead of propagating"),
+ "X-C04": ("C04", "build_app_response does not prefix a custom event whose type already starts with 'wasm-'"),
+ "X-C05": ("C05", "BankKeeper::send loads both balances before storing either: a contract calling ITSELF with funds it owns is credited without being debited"),
+ "X-C06": ("C06", "StorageTransaction::set updates a pending entry in place and forgets the pending-Delete case: remove then set of one key in one cache leaves the tombstone in the read view (commit is right)"),
+ "X-C07": ("C07", "namespace concat() returns the key unprefixed when it already starts with the view's own encoded prefix: view keys k and P++k alias one raw entry"),
+ "X-C08": ("C08", "StorageTransaction::remove drops a pending Set instead of recording a tombstone (the Delete is still logged): between an overwrite+remove on one cache level and the end of the transaction, reads show the value from the layer below"),
+ "X-C09": ("C09", "normalize_amount cuts the coin list at the first zero-amount coin (take_while) instead of dropping zero coins: coins after a zero coin are silently not moved / burned / minted"),
+ "X-C10": ("C10", "execute_submsg commits a successful sub-message's cache AFTER its reply ran: queries issued inside the reply do not see what the sub-message did"),
+ "X-C11": ("C11", "WasmMsg::Migrate records the new code id AFTER calling migrate: the migrate entry point that runs is the OLD code's (fails if the old code has none, accepts what the new one would refuse)"),
+ "X-C12": ("C12", "the admin checks compare admin.unwrap_or_default() with the sender: 'no admin' equals the sender with the EMPTY address, who may then migrate / set the admin"),
+ "X-C13": ("C13", "call_migrate no longer passes its result through verify_response: malformed responses of the migrate entry point are accepted"),
+ "X-C14": ("C14", "update_stake checks an undelegation against the validator's TOTAL stake instead of the sender's shares: with several delegators, taking out more than one's own delegation panics (subtract with overflow)"),
+ "X-C15": ("C15", "a PARTIAL redelegation no longer settles the source validator's rewards first: the open interval is later computed on the reduced stake"),
+ "X-C16": ("C16", "slash's scan of the unbonding queue stops (break) at the first entry of another validator: unbondings queued behind it are paid unslashed"),
+ "X-C17": ("C17", "App::wasm_sudo without its outer cache (third time, written against C17): a module failing late in a tree started by wasm_sudo does not abort what came before"),
+ "X-C18": ("C18", "addr_make returns its input unchanged when that is already a valid address of the codec: the names n and addr_make(n) give the same address"),
+ "X-C19": ("C19", "addr_canonicalize caches decoded strings in a thread-local map keyed without the checksum variant: a Bech32 and a Bech32m Api with the same prefix on one thread accept each other's addresses after the first has seen them"),
+ "X-C20": ("C20", "AppBuilder::with_block copies chain_id only when it is non-empty: a supplied block with an empty chain id keeps the default one"),
  "W-C20": ("C20", "ContractWrapper::with_migrate_empty rebuilds the wrapper with reply_fn: None: a reply handler supplied before with_migrate_empty is lost"),
  "V-C20": ("C20", "ContractWrapper::with_checksum keeps the FIRST checksum (get_or_insert): only visible when with_checksum is applied twice with different values, which no subset / permutation of distinct steps does"),
  "U-C20": ("C20", "AppBuilder::new_custom starts from a literal block whose time lacks the sub-second part of mock_env().block: apps from new_custom / custom_app without with_block start 879305533 ns earlier than App::default()"),
@@ -109,7 +129,7 @@ def main(logs):
     res = {}
     for lg in logs:
         for line in open(lg):
-            m = re.match(r"^([STUVW]-C\d+) (\S+)(?: (.*))?$", line.strip())
+            m = re.match(r"^([STUVWX]-C\d+) (\S+)(?: (.*))?$", line.strip())
             if not m: continue
             sid, key, rest = m.group(1), m.group(2), m.group(3) or ""
             r = res.setdefault(sid, {"checks": {}, "verified": {}})
@@ -144,7 +164,7 @@ def main(logs):
         json.dump(meta, open(os.path.join(d, "meta.json"), "w"), indent=1)
         rows.append((sid, prop, "yes" if prop in detected else ("NO" if r["checks"] else "not run"), ", ".join(detected), trig))
     with open(os.path.join(ROOT, "seeded", "README.md"), "w") as f:
-        f.write("# Seeded property-breaking changes (from sub-agents)\n\nS-* = round 1, T-* = round 2, U-* = round 3, V-* = round 4, W-* = round 5 (from round 2 on the sub-agent was told the earlier changes as 'already taken'). Each directory holds `patch.diff` (apply with `git -C /repo apply`), the demonstration test `seed_demo.rs`, the sub-agent's `NOTES.md` and `meta.json`.\nAll were re-verified with `tools/selftest.sh` on a scratch copy of /repo: the baseline suite passes with the change, the demonstration passes without and fails with it.\n\n| seed | breaks | own check detects | all quick checks that fail | needs |\n|---|---|---|---|---|\n")
+        f.write("# Seeded property-breaking changes (from sub-agents)\n\nS-* = round 1, T-* = round 2, U-* = round 3, V-* = round 4, W-* = round 5, X-* = round 6 (from round 2 on the sub-agent was told the earlier changes as 'already taken'). Each directory holds `patch.diff` (apply with `git -C /repo apply`), the demonstration test `seed_demo.rs`, the sub-agent's `NOTES.md` and `meta.json`.\nAll were re-verified with `tools/selftest.sh` on a scratch copy of /repo: the baseline suite passes with the change, the demonstration passes without and fails with it.\n\n| seed | breaks | own check detects | all quick checks that fail | needs |\n|---|---|---|---|---|\n")
         for row in rows:
             f.write("| %s | %s | %s | %s | %s |\n" % row)
     print("\n".join("%s %s own=%s all=[%s]" % r[:4] for r in rows))
